@@ -13,7 +13,7 @@ import (
 // C09: downstream failures are contained and reported, never masked.
 
 // failure signals: the answer itself says "this failed" => errors must be non-empty
-var c09Signals = []string{"transport", "transport-eof", "transport-reset", "trailing-garbage", "glued", "errors-empty-datanull", "status500", "status500-validbody", "notjson", "object", "short", "long", "empty", "errors1", "errors2", "errors-nocode", "errors-noext", "errors-null1", "errors-null-nodata", "errors-null2-data", "datanull", "nodata",
+var c09Signals = []string{"transport", "transport-eof", "transport-reset", "trailing-garbage", "glued", "errors-empty-datanull", "status500", "status500-validbody", "status300-validbody", "status302-validbody", "status404-validbody", "notjson", "object", "short", "long", "empty", "errors1", "errors2", "errors-nocode", "errors-noext", "errors-null1", "errors-null-nodata", "errors-null2-data", "datanull", "nodata",
 	"nonode", "nodestring", "nodelist", "nodenumber"}
 
 // shape faults: values whose shape contradicts the schema => contained, nothing invented
@@ -35,7 +35,8 @@ func c09Jobs(tier string) []string {
 	if tier == "quick" {
 		return []string{"W0|e0p|fltK3", "Wmin|e0p|fltK3", "W0+third-service|e0p|fltK2", "W0+entity-list-self|e0p|fltK3", "W0+n2-backref-list|e0p|fltK2",
 			"W0+value-type-entity-ref|e0p|fltK3", "W0+mutation-second-service|e0p|fltK2", "W0+union-list|e0p|fltK2", "W0|e0pm1|fltK2", "W0|e0pm2|fltK3", "W0|e1c|fltK2",
-			"W0+root-nullable-list+data-null-entries|e0p|fltK2", "W0+value-type-list|e0p|fltK2", "W0+entity-list-nullable|e0p|fltK2"}
+			"W0+root-nullable-list+data-null-entries|e0p|fltK2", "W0+value-type-list|e0p|fltK2", "W0+entity-list-nullable|e0p|fltK2",
+			"W0+upload-roots+upload-second-service|e0p|uploads"}
 	}
 	var jobs []string
 	for _, w := range EnumWorlds([]string{"Wmin", "W0"}, 1, 0) {
@@ -44,7 +45,7 @@ func c09Jobs(tier string) []string {
 	for _, c := range []string{"e0pm1", "e0pm2", "e1c", "s0p"} {
 		jobs = append(jobs, "W0|"+c+"|fltK3", "W0+third-service|"+c+"|fltK3")
 	}
-	jobs = append(jobs, "W0|e0p|fltK4", "W0|e0p|pairK2", "W0+third-service|e0p|pairK2", "W0|e0pm1|pairK2")
+	jobs = append(jobs, "W0|e0p|fltK4", "W0|e0p|pairK2", "W0+third-service|e0p|pairK2", "W0|e0pm1|pairK2", "W0+upload-roots+upload-second-service|e0p|uploads", "W0+upload-roots|e0pm1|uploads")
 	return jobs
 }
 
@@ -99,7 +100,7 @@ func init() {
 		Level: "fault_enumeration",
 		Rule: "case = (world, operation with <=K fields, fault kind, position = (index of the downstream HTTP call in the execution, index inside that call's batch)); fault alphabet: 25 failure signals " +
 			"(transport error, status 500 with an error body and with a well-formed answer as body, non-JSON body, object instead of array, array short/long/empty, errors x1/x2, errors without code / without extensions, errors lists of null entries (with null, without and with data), connection broken or reset after the call arrived, trailing garbage, two answers glued, empty errors list with null data, data null, no data, node missing/string/list/number) and 10 schema-contradicting shapes " +
-			"(list entry scalar/null, scalar, list or empty list for object, object or null for list, entity without id, foreign id, null scalar); thorough adds ordered pairs of faults; oracle: process alive, handler returned, " +
+			"(list entry scalar/null, scalar, list or empty list for object, object or null for list, entity without id, foreign id, null scalar); thorough adds ordered pairs of faults; the same single faults on the multipart calls of upload requests; oracle: process alive, handler returned, " +
 			"well-formed envelope, every downstream response body closed, failure signals => errors non-empty, no value in data that no service returned, and a follow-up request on the same gateway equals its reference; non-trivial = the fault hit a sub-request",
 		Assumptions: []string{"single faults (thorough: pairs) on the in-memory transport; operations through the root node() entry point are excluded (C01 finding)",
 			"hangs are decided on Engine B; here a watchdog would only report a suspected hang"},
@@ -123,6 +124,10 @@ func init() {
 				return
 			}
 			f.Fakes.Taint = true
+			if opset == "uploads" {
+				c09Uploads(f, wd, cfg, from, em)
+				return
+			}
 			var k int
 			pairs := strings.HasPrefix(opset, "pair")
 			fmt.Sscan(opset[len(opset)-1:], &k)
@@ -146,7 +151,7 @@ func init() {
 				for ci, hc := range calls {
 					for pos := 0; pos < hc.Size; pos++ {
 						for _, kind := range kindsAll {
-							if pos > 0 && (kind == "transport" || kind == "transport-eof" || kind == "transport-reset" || kind == "trailing-garbage" || kind == "glued" || kind == "status500" || kind == "status500-validbody" || kind == "notjson" || kind == "object" || kind == "short" || kind == "long" || kind == "empty") {
+							if pos > 0 && (kind == "transport" || kind == "transport-eof" || kind == "transport-reset" || kind == "trailing-garbage" || kind == "glued" || kind == "status500" || strings.HasSuffix(kind, "-validbody") || kind == "notjson" || kind == "object" || kind == "short" || kind == "long" || kind == "empty") {
 								continue // call-level faults do not depend on the position
 							}
 							plans = append(plans, []fpos{{ci, pos, kind}})
@@ -240,4 +245,73 @@ func canonJSON(b []byte) string {
 	}
 	o, _ := json.Marshal(gqlref.Norm(v))
 	return string(o)
+}
+
+// c09Uploads: the same fault alphabet on the downstream calls of multipart (upload) requests - the queryer sends
+// a sub-request that carries files on a path of its own (one multipart call per request, the answer is a single object).
+func c09Uploads(f *Fed, wd WorldDesc, cfg Config, from int, em *Emitter) {
+	var kindsAll []string
+	for _, k := range append(append([]string{}, c09Signals...), c09Shapes...) {
+		switch k {
+		case "object", "short", "long", "empty":
+			// shapes of the batch array: the answer to a multipart call is a single object anyway
+			continue
+		}
+		kindsAll = append(kindsAll, k)
+	}
+	idx := 0
+	seenOp := map[string]bool{}
+	for _, l := range upLayouts("quick", strings.Contains(wd.Name(), "upload-second-service")) {
+		if len(l.Ops) != 1 || len(l.Files) == 0 || seenOp[l.Ops[0].Q] {
+			continue
+		}
+		seenOp[l.Ops[0].Q] = true // one layout per operation: which slots carry files does not change the calls
+		if d, _ := f.load(l.Ops[0].Q); d == nil {
+			continue
+		}
+		body, ct := l.body()
+		f.Fakes.FaultFor = nil
+		f.Fakes.Reset()
+		f.Post([]byte(body), ct)
+		calls := append([]HTTPCall{}, f.Fakes.Calls...)
+		for ci, hc := range calls {
+			if !hc.Multi {
+				continue
+			}
+			for _, kind := range kindsAll {
+				idx++
+				if idx-1 < from {
+					continue
+				}
+				kind, ci := kind, ci
+				atoms := append(append([]string{}, f.W.Atoms...), cfg.Atoms()...)
+				atoms = append(atoms, "fault-"+kind, "multipart-call")
+				rp := map[string]interface{}{"world": wd.Name(), "cfg": cfg.String(), "layout": l.Desc, "fault": fmt.Sprintf("%s at call %d", kind, ci)}
+				if !em.Begin(idx-1, atoms, rp) {
+					if em.Capped() {
+						return
+					}
+					continue
+				}
+				f.Fakes.Reset()
+				f.Fakes.FaultFor = func(c, svc, n int) *Fault {
+					if c == ci {
+						return &Fault{Kind: kind, Pos: 0}
+					}
+					return nil
+				}
+				status, rb := f.Post([]byte(body), ct)
+				f.Fakes.FaultFor = nil
+				if f.Fakes.FaultsApplied != 1 {
+					em.Extra("fault-not-applicable", 1)
+					em.Done(false)
+					continue
+				}
+				if sigs := c09Check(f, status, rb, []string{kind}, true, true); len(sigs) > 0 {
+					em.Fail(atoms, sigs, rp)
+				}
+				em.Done(true)
+			}
+		}
+	}
 }
